@@ -217,11 +217,20 @@ async def part_h2(flavor, case, J):
             # every one of them must see a documented exception of the right class, not only the one that was reading
             from .. import runners
             mut["frame"] = 4 + mut["frame"]
-            outs = await runners.gather({f"s{k}": (lambda k=k: fetch(flavor, api, "GET", f"https://o.test/x{k}",
-                                                                      headers=[("X-Token", f"s{k}")])) for k in range(3)})
+            uploader = i % 4 == 3
+            if uploader:
+                # one of the siblings is in the middle of a slow upload (its send phase) when the bad frame is read by another
+                net.latency = lambda kind_, idx: 0.01 if kind_ == "write" else 0.0
+            jobs = {f"s{k}": (lambda k=k: fetch(flavor, api, "GET", f"https://o.test/x{k}", headers=[("X-Token", f"s{k}")]))
+                    for k in range(3)}
+            if uploader:
+                jobs["s2"] = lambda: fetch(flavor, api, "POST", "https://o.test/up", headers=[("X-Token", "s2")],
+                                           content=api.body([b"u" * 1000] * 12))
+            outs = await runners.gather(jobs)
             for name, o in sorted(outs.items()):
                 res = o.value if o.kind == "ok" else o
-                J.peer("h2-siblings", kind, res, {"flavor": flavor, "mutation": mut, "shape": "3 concurrent GETs", "caller": name})
+                J.peer("h2-siblings", kind, res, {"flavor": flavor, "mutation": mut,
+                                                  "shape": "2 GETs + 1 slow upload" if uploader else "3 concurrent GETs", "caller": name})
         else:
             out = await fetch(flavor, api, "POST" if shape == "post" else "GET", "https://o.test/x", content=content)
             J.peer("h2", kind, out, {"flavor": flavor, "mutation": mut, "shape": shape})
@@ -463,7 +472,20 @@ def part_realsock(flavor, case, J):
             continue  # the provocation did not happen: inconclusive for this case, not a verdict
         if want is None:
             if res.get("outcome") != "ok":
-                J.v(f"realsock:request-failed:{backend}:{b}", f"{exc!r}", ctx)
+                # a behaviour that is expected to succeed. Over real sockets on a loaded machine it can fail for reasons of
+                # the environment (seen once: a TLS alert inside the TLS-in-TLS relay of the harness while all cores were
+                # busy); what C15 decides is the class of what reaches the caller, so only an undocumented exception is a verdict
+                # here - a documented failure is counted and tried once more
+                cnt["real_socket_expected_ok_failed"] = cnt.get("real_socket_expected_ok_failed", 0) + 1
+                if exc is not None and not documented(exc):
+                    J.v(f"undocumented:realsock:{backend}:{exc_name(exc)}", f"{b}: {exc!r}", ctx)
+                else:
+                    res2 = realsock.run_one(backend, b)
+                    exc2 = res2.get("exc")
+                    if res2.get("outcome") != "ok" and exc2 is not None and not documented(exc2):
+                        J.v(f"undocumented:realsock:{backend}:{exc_name(exc2)}", f"{b}: {exc2!r}", ctx)
+                    elif res2.get("outcome") != "ok" and res2.get("accepted"):
+                        J.v(f"realsock:request-failed-twice:{backend}:{b}", f"{exc!r}, then {exc2!r}", ctx)
         elif want == "cancelled":
             if res.get("outcome") != "cancelled":
                 J.v(f"realsock:cancel-not-delivered:{backend}", f"{res.get('outcome')} {exc!r}", ctx)
